@@ -157,23 +157,30 @@ class gcvar(object):
             self.category = self.category.decode()
         self.tracerid = self._header['tracerid'][0]
         self.base_units = self._header['base_units'][0]
-        self.catoffset = [row['offset']
-                          for row in self._parent._ddata
-                          if row['category'] == self.category][0]
+        self.catoffset = ([row['offset']
+                           for row in self._parent._ddata
+                           if row['category'] == self.category] + [0])[0]
         self.noscale = self._parent.noscale
         STARTK, STARTJ, STARTI = self._header['start'][0][::-1] - 1
         self.STARTK, self.STARTJ, self.STARTI = STARTK, STARTJ, STARTI
         if hasattr(self.category, 'decode'):
             self.category = self.category.decode()
         self.cattracerid = self.catoffset + self.tracerid
-        props = ([row for row in self._parent._tdata
-                  if row['tracerid'] == self.cattracerid] +
-                 [row for row in self._parent._tdata
-                  if row['tracerid'] == self.tracerid])[0]
-        for pk in props.dtype.names:
+        tdata = self._parent._tdata
+        rows = [row for row in tdata if row['tracerid'] == self.cattracerid]
+        if rows:
+            props = dict(zip(tdata.dtype.names, rows[0].tolist()))
+        else:
+            # like bpch1: no tracerinfo line for offset + id -> the name of the
+            # tracer with that id (else the id), no scaling, header unit
+            names = [row['shortname'] for row in tdata
+                     if row['tracerid'] == self.tracerid]
+            props = dict(shortname=(names + [str(self.tracerid)])[0],
+                         fullname='unknown', kgpermole=1., carbon=0,
+                         scale=1., units=self.base_units.strip())
+        for pk, pv in props.items():
             if pk == 'tracerid':
                 continue
-            pv = props[pk]
             if hasattr(pv, 'decode'):
                 pv = pv.decode()
             setattr(self, pk, pv)
